@@ -334,13 +334,27 @@ def c05g(prog, rep):
     b = prog.body(P + "parse_statement")
     if not rep.check(b is not None, R, "anchor:parse_statement", "parse_statement not found"):
         return
+    def routine_test(body, bb):
+        """the leaf facts on get_current_token_type() that dominate bb in body"""
+        facts = [f for f in dominating_variant_facts(prog, body, bb) if f[0].startswith("get_current_token_type(")]
+        return [f for f in facts if f[0].count("@") == 2]
+    # the hand-over may be wrapped: a parser method that calls parse_routine_header under its own `procedure | function` test
+    wrappers = {}
+    for k, hb in prog.bodies.items():
+        if k.startswith(P) and k != b.npath and "{closure" not in k:
+            for c in hb.calls():
+                if norm(c.t.get("resolved") or c.target or c.callee or "").endswith("::parse_routine_header"):
+                    lf = routine_test(hb, c.bb)
+                    if lf and set(lf[-1][2]) <= {"Function", "Procedure"}:
+                        wrappers[k] = True
     arms = {}
     for c in b.calls():
-        if not norm(c.t.get("resolved") or c.target or c.callee or "").endswith("::parse_routine_header"):
-            continue
-        facts = [f for f in dominating_variant_facts(prog, b, c.bb) if f[0].startswith("get_current_token_type(")]
-        leaf = [f for f in facts if f[0].count("@") == 2]
-        if len(leaf) >= 2 and set(leaf[-1][2]) <= {"Function", "Procedure"} and leaf[0][1] == "is":
+        t = norm(c.t.get("resolved") or c.target or c.callee or "")
+        leaf = routine_test(b, c.bb)
+        if t.endswith("::parse_routine_header"):
+            if len(leaf) >= 2 and set(leaf[-1][2]) <= {"Function", "Procedure"} and leaf[0][1] == "is":
+                arms.setdefault(leaf[0][2][0], []).append(c)
+        elif t in wrappers and leaf and leaf[0][1] == "is":
             arms.setdefault(leaf[0][2][0], []).append(c)
     missing = [t for t in TYPE_INTRODUCERS if t not in arms]
     rep.check(not missing, R, "procedural-type-after-every-type-introducer",
@@ -372,7 +386,14 @@ def c05h(prog, rep):
             if any(norm(c.t.get("resolved") or c.target or c.callee or "") == P + "consolidate_current_keyword" for c in x.calls()):
                 sites.append((root, x))
     for site, b in sites:
-        looks = [c for c in b.calls() if norm(c.t.get("resolved") or c.target or c.callee or "") == P + "get_token_type" and (c.t.get("callee_args") or [None])[-1] == "1"]
+        def is_lookahead(c, depth=0):
+            t = norm(c.t.get("resolved") or c.target or c.callee or "")
+            if t == P + "get_token_type" and (c.t.get("callee_args") or [None])[-1] == "1":
+                return True
+            hb = prog.body(t)
+            # .. or a small parser method / closure that performs it (`fn next_is_member_name(&self) -> bool`)
+            return depth < 1 and hb is not None and hb.npath.startswith(P) and not hb.loops() and len(hb.blocks) < 40 and any(is_lookahead(x, depth + 1) for x in hb.calls())
+        looks = [c for c in b.calls() if is_lookahead(c)]
         for c in b.calls():
             if norm(c.t.get("resolved") or c.target or c.callee or "") != P + "consolidate_current_keyword":
                 continue
